@@ -142,3 +142,190 @@ Proof.
   unfold update_range. simpl. destruct (s <=? d) eqn:E; [reflexivity|].
   apply get_at_drop_ge. lia.
 Qed.
+
+(** ** Strictly decreasing lists: all-pairs form *)
+
+Fixpoint sdec {A} (l : list (Z * A)) : Prop :=
+  match l with
+  | [] => True
+  | x :: t => (forall y, In y t -> fst y < fst x) /\ sdec t
+  end.
+
+Lemma decreasing_sdec {V} (h : hist V) : decreasing h <-> sdec h.
+Proof.
+  induction h as [|[k v] t IH]; simpl; [tauto|].
+  split.
+  - intros [H1 H2]. apply IH in H2. split; [|exact H2].
+    destruct t as [|[k' v'] t']; simpl in *; [tauto|].
+    intros y [Hy|Hy]; [subst; simpl; lia|].
+    destruct H2 as [H2 _]. specialize (H2 y Hy). simpl in *. lia.
+  - intros [H1 H2]. split; [|now apply IH].
+    destruct t as [|[k' v'] t']; [exact I|]. apply (H1 (k', v')). now left.
+Qed.
+
+Lemma sdec_app {A} (a c : list (Z * A)) :
+  sdec a -> sdec c -> (forall x y, In x a -> In y c -> fst y < fst x) -> sdec (a ++ c).
+Proof.
+  induction a as [|x a IH]; simpl; intros Ha Hc H; [exact Hc|].
+  destruct Ha as [Ha1 Ha2]. split.
+  - intros y Hy. apply in_app_or in Hy. destruct Hy; [auto|]. apply H; auto.
+  - apply IH; auto.
+Qed.
+
+Lemma sdec_app_inv {A} (a c : list (Z * A)) :
+  sdec (a ++ c) -> sdec a /\ sdec c /\ (forall x y, In x a -> In y c -> fst y < fst x).
+Proof.
+  induction a as [|x a IH]; simpl; intros H.
+  - repeat split; auto. intros ? ? [].
+  - destruct H as [H1 H2]. destruct (IH H2) as (Ia & Ic & Iac). repeat split; auto.
+    + intros y Hy. apply H1. apply in_or_app. now left.
+    + intros x' y [Hx|Hx] Hy; [subst; apply H1; apply in_or_app; now right|auto].
+Qed.
+
+(** ** get_at_latest *)
+
+Definition latest_entry {V} (h : hist V) (d k : Z) (v : option V) : Prop :=
+  In (k, v) h /\ k <= d /\ forall k' v', In (k', v') h -> k' <= d -> k' <= k.
+
+Lemma get_at_latest_lemma {V} (h : hist V) (d : Z) : decreasing h ->
+  ((exists k v, latest_entry h d k v) \/ (forall k v, In (k, v) h -> d < k))
+  /\ (forall k v, latest_entry h d k v -> get_at h d = v)
+  /\ ((forall k v, In (k, v) h -> d < k) -> get_at h d = None).
+Proof.
+  intros Hdec. apply decreasing_sdec in Hdec.
+  induction h as [|[k0 v0] t IH]; simpl.
+  - split; [right; intros ? ? []|]. split; [intros k v (H & _); destruct H|reflexivity].
+  - destruct Hdec as [H1 H2]. specialize (IH H2). destruct IH as (IHa & IHb & IHc).
+    destruct (k0 <=? d) eqn:E.
+    + split; [|split].
+      * left. exists k0, v0. split; [now left|]. split; [lia|].
+        intros k' v' [Hin|Hin] _; [inversion Hin; lia|]. specialize (H1 _ Hin). simpl in H1. lia.
+      * intros k v (Hin & Hk & Hmax). destruct Hin as [Hin|Hin]; [now inversion Hin|].
+        specialize (H1 _ Hin). simpl in H1.
+        specialize (Hmax k0 v0 (or_introl eq_refl)). lia.
+      * intros H. specialize (H k0 v0 (or_introl eq_refl)). lia.
+    + split; [|split].
+      * destruct IHa as [(k & v & Hin & Hk & Hmax)|Hnone].
+        -- left. exists k, v. split; [now right|]. split; [exact Hk|].
+           intros k' v' [Hin'|Hin'] Hk'; [inversion Hin'; lia|eauto].
+        -- right. intros k v [Hin|Hin]; [inversion Hin; lia|eauto].
+      * intros k v (Hin & Hk & Hmax). apply (IHb k). destruct Hin as [Hin|Hin]; [inversion Hin; lia|].
+        split; [exact Hin|]. split; [exact Hk|]. intros k' v' Hin' Hk'. apply (Hmax k' v'); [now right|exact Hk'].
+      * intros H. apply IHc. intros k v Hin. apply (H k v). now right.
+Qed.
+
+(** ** update_sorted *)
+
+Lemma take_ge_sdec {V} b (h : hist V) : sdec h -> sdec (take_ge b h).
+Proof.
+  induction h as [|[k v] t IH]; simpl; [tauto|]. intros [H1 H2].
+  destruct (b <=? k); simpl; [|exact I]. split; [|auto].
+  intros y Hy. apply H1. rewrite <- (take_drop_ge b t). apply in_or_app. now left.
+Qed.
+
+Lemma drop_ge_incl {V} b (h : hist V) x : In x (drop_ge b h) -> In x h.
+Proof.
+  intros H. rewrite <- (take_drop_ge b h). apply in_or_app. now right.
+Qed.
+
+Lemma drop_ge_sdec {V} b (h : hist V) : sdec h -> sdec (drop_ge b h).
+Proof.
+  induction h as [|[k v] t IH]; simpl; [tauto|]. intros [H1 H2].
+  destruct (b <=? k); simpl; auto.
+Qed.
+
+Lemma drop_ge_all_lt {V} b (h : hist V) : sdec h -> forall x, In x (drop_ge b h) -> fst x < b.
+Proof.
+  induction h as [|[k v] t IH]; simpl; [tauto|]. intros [H1 H2] x.
+  destruct (b <=? k) eqn:E; [auto|].
+  intros [Hx|Hx]; [subst; simpl; lia|]. specialize (H1 x Hx). simpl in H1. lia.
+Qed.
+
+Lemma last_date_min {V} (h : hist V) k : sdec h -> last_date h = Some k ->
+  forall x, In x h -> k <= fst x.
+Proof.
+  intros Hs HL x Hx. pose proof (last_date_spec h) as H. rewrite HL in H.
+  destruct H as (h' & v & H). subst h. apply sdec_app_inv in Hs. destruct Hs as (_ & _ & Hs).
+  apply in_app_or in Hx. destruct Hx as [Hx|[Hx|[]]].
+  - specialize (Hs x (k, v) Hx (or_introl eq_refl)). simpl in Hs. lia.
+  - subst. simpl. lia.
+Qed.
+
+Lemma update_range_sorted {V} (h : hist V) s e v :
+  decreasing h -> (match e with Some e => s <= e | None => True end) ->
+  decreasing (update_range h s e v).
+Proof.
+  intros Hdec Hse. apply decreasing_sdec. apply decreasing_sdec in Hdec.
+  unfold update_range. destruct e as [e|].
+  - set (b := e + 1). set (fut := take_ge b h). set (rest := drop_ge b h).
+    assert (Hfut : sdec fut) by now apply take_ge_sdec.
+    assert (Hrest : sdec rest) by now apply drop_ge_sdec.
+    assert (Hrest_lt : forall x, In x rest -> fst x < b) by now apply drop_ge_all_lt.
+    assert (Hfut_ge : forall x, In x fut -> b <= fst x).
+    { intros [k v'] Hx. apply take_ge_all in Hx. exact Hx. }
+    assert (Htail : sdec ((s, v) :: drop_ge s rest)).
+    { simpl. split; [|now apply drop_ge_sdec]. intros y Hy. simpl. now apply (drop_ge_all_lt s rest). }
+    apply sdec_app; [exact Hfut| |].
+    + apply sdec_app; [|exact Htail|].
+      * unfold reopen. destruct (last_date fut); [destruct (_ =? _)|]; simpl; auto;
+          destruct rest as [|[? ?] ?]; simpl; auto; (split; [intros ? []|exact I]).
+      * intros [kx vx] y Hx Hy. apply reopen_dates in Hx. subst kx. simpl.
+        destruct Hy as [Hy|Hy]; [subst y; simpl; unfold b; lia|].
+        pose proof (drop_ge_all_lt s rest Hrest y Hy). unfold b. lia.
+    + intros x y Hx Hy. apply in_app_or in Hy. destruct Hy as [Hy|Hy].
+      * (* a kept entry is strictly later than the re-opened one *)
+        destruct y as [ky vy]. pose proof (reopen_dates _ _ _ _ _ Hy) as Hky. subst ky. simpl.
+        unfold reopen in Hy. destruct (last_date fut) as [k|] eqn:HL.
+        -- destruct (k =? b) eqn:E; [destruct Hy|].
+           pose proof (last_date_min fut k Hfut HL x Hx).
+           pose proof (last_date_spec fut) as HS. rewrite HL in HS. destruct HS as (h' & v' & HS).
+           assert (b <= k). { apply (Hfut_ge (k, v')). rewrite HS. apply in_or_app. right. now left. }
+           lia.
+        -- pose proof (last_date_spec fut) as HS. rewrite HL in HS. rewrite HS in Hx. destruct Hx.
+      * specialize (Hfut_ge x Hx).
+        destruct Hy as [Hy|Hy]; [subst y; simpl; unfold b in *; lia|].
+        pose proof (drop_ge_all_lt s rest Hrest y Hy). unfold b in *. lia.
+  - simpl. split; [|now apply drop_ge_sdec]. intros y Hy. simpl. now apply (drop_ge_all_lt s h).
+Qed.
+
+(** ** updates_spec: any list of updates, against the abstract function of dates *)
+
+Definition in_span (s : Z) (e : option Z) (d : Z) : bool :=
+  (s <=? d) && match e with Some e => d <=? e | None => true end.
+
+(** what one update does to the function  date -> value *)
+Definition override {V} (f : Z -> option V) (u : upd V) : Z -> option V :=
+  fun d => let '(s, e, v) := u in if in_span s e d then v else f d.
+
+Definition well_formed {V} (u : upd V) : Prop :=
+  match u with (s, Some e, _) => s <= e | (_, None, _) => True end.
+
+Lemma update_range_spec {V} (h : hist V) s e v d :
+  get_at (update_range h s e v) d = if in_span s e d then v else get_at h d.
+Proof.
+  unfold in_span. destruct e as [e|].
+  - apply update_range_closed_spec.
+  - rewrite update_range_open_spec. now rewrite andb_true_r.
+Qed.
+
+Lemma fold_override_ext {V} (us : list (upd V)) (f g : Z -> option V) :
+  (forall d, f d = g d) -> forall d, fold_left override us f d = fold_left override us g d.
+Proof.
+  revert f g. induction us as [|[[s e] v] us IH]; simpl; intros f g H d; [apply H|].
+  apply IH. intros d'. unfold override. now rewrite H.
+Qed.
+
+Lemma apply_updates_spec {V} (us : list (upd V)) (h : hist V) :
+  forall d, get_at (apply_updates h us) d = fold_left override us (get_at h) d.
+Proof.
+  unfold apply_updates. revert h. induction us as [|[[s e] v] us IH]; simpl; intros h d; [reflexivity|].
+  rewrite IH. apply fold_override_ext. intros d'. unfold override. apply update_range_spec.
+Qed.
+
+Lemma apply_updates_sorted {V} (us : list (upd V)) (h : hist V) :
+  decreasing h -> Forall well_formed us -> decreasing (apply_updates h us).
+Proof.
+  unfold apply_updates. revert h. induction us as [|[[s e] v] us IH]; simpl; intros h Hd Hw; [exact Hd|].
+  inversion Hw; subst. apply IH; [|assumption].
+  apply update_range_sorted; [exact Hd|]. destruct e; simpl in *; auto.
+Qed.
